@@ -135,14 +135,15 @@ def wsLen (text : Array Nat) (i hi : Nat) : Nat :=
 def matchesAt (text : Array Nat) (i hi : Nat) (lit : List Nat) : Bool :=
   !lit.isEmpty && i + lit.length ≤ hi && (List.range lit.length).all fun k => text.getD (i + k) 256 == lit.getD k 257
 
-/-- `[lo, hi)` consists only of what the lexer may skip: whitespace, literal extras, and the
-byte-order mark at offset 0 (`ts_lexer_start`). -/
-def skippable (lang : Lang) (text : Array Nat) (lo hi : Nat) (ranges : List TSRange := []) : Bool :=
-  let rec go (fuel i : Nat) : Bool :=
+/-- First byte of `[lo, hi)` that is NOT something the lexer may skip (whitespace, literal extras,
+the byte-order mark at offset 0 — `ts_lexer_start` —, bytes outside the included ranges);
+`none` = the whole segment is skippable. -/
+def skipScan (lang : Lang) (text : Array Nat) (lo hi : Nat) (ranges : List TSRange := []) : Option Nat :=
+  let rec go (fuel i : Nat) : Option Nat :=
     match fuel with
-    | 0 => decide (i ≥ hi)
+    | 0 => if i ≥ hi then none else some i
     | fuel + 1 =>
-      if i ≥ hi then true
+      if i ≥ hi then none
       -- a byte outside every included range is never read by the lexer
       else if !ranges.isEmpty && !(ranges.any fun r => r.start_byte ≤ i && i < r.end_byte) then go fuel (i + 1)
       else
@@ -151,8 +152,16 @@ def skippable (lang : Lang) (text : Array Nat) (lo hi : Nat) (ranges : List TSRa
         else match lang.skipLits.find? (matchesAt text i hi) with
           | some lit => go fuel (i + lit.length)
           | none =>
-            if i = 0 ∧ matchesAt text 0 hi [0xEF, 0xBB, 0xBF] then go fuel 3 else false
+            if i = 0 ∧ matchesAt text 0 hi [0xEF, 0xBB, 0xBF] then go fuel 3 else some i
   go (hi - lo + 1) lo
+
+def skippable (lang : Lang) (text : Array Nat) (lo hi : Nat) (ranges : List TSRange := []) : Bool :=
+  (skipScan lang text lo hi ranges).isNone
+
+/-- Does a multi-byte literal extra BEGIN at `i` without being completed (e.g. a lone `\` where the
+extra is `\`+newline)?  The generated lexer consumes such a prefix in separator states. -/
+def partialSeparatorAt (lang : Lang) (text : Array Nat) (i : Nat) : Bool :=
+  lang.skipLits.any fun lit => lit.length ≥ 2 && text.getD i 256 == lit.headD 257
 
 def sliceEq (text : Array Nat) (lo hi : Nat) (bytes : List Nat) : Bool :=
   hi - lo == bytes.length && matchesAt text lo hi bytes || (bytes.isEmpty && lo == hi)
@@ -224,8 +233,12 @@ mutual
                 s!"{where_ ()} expected start={repr (e.tbl.getD start.bytes default)} end={repr (e.tbl.getD stop.bytes default)}"
       let f := if !d.isMissing || decide (d.size = length_zero) then f else f.add "missing_empty" where_
       let isLeaf := kids.isEmpty
-      let f := if !isLeaf || !e.lang.skipKnown || skippable e.lang e.text pos.bytes start.bytes e.ranges then f
-               else f.add "padding_skippable" fun _ => s!"{where_ ()} padding=[{pos.bytes},{start.bytes})"
+      let f := if !isLeaf || !e.lang.skipKnown then f else
+               match skipScan e.lang e.text pos.bytes start.bytes e.ranges with
+               | none => f
+               | some i =>
+                 f.add (if partialSeparatorAt e.lang e.text i then "padding_skippable:partial-separator" else "padding_skippable")
+                   fun _ => s!"{where_ ()} padding=[{pos.bytes},{start.bytes}) first unskippable byte at {i}"
       let m := e.lang.symMeta d.symbol
       let isLiteral := isLeaf && m.visible && !m.named && al == 0 && !d.isMissing && !d.hasExternalTokens &&
                        d.symbol < e.lang.tokenCount - e.lang.externalTokenCount && d.symbol != symEnd
